@@ -52,13 +52,18 @@ func (g *c01Gen) strLeaf(path []string) slog.Attr {
 
 // kid: member of a nested group: leaf, empty inline group, empty keyed group, inline group with one leaf
 func (g *c01Gen) kid(path []string) slog.Attr {
-	switch vxPick(4) {
+	switch vxPick(6) {
 	case 0:
 		return g.strLeaf(path)
 	case 1:
 		return slog.Group("")
 	case 2:
 		return slog.Group(g.key())
+	case 3:
+		// (slog strips literal empty groups from a group's members; a LogValuer is resolved only by the handler)
+		return slog.Any("", c01Valuer{slog.GroupValue()}) // writes nothing
+	case 4:
+		return slog.Any(g.key(), c01Valuer{slog.GroupValue()}) // "k":{}
 	}
 	return slog.Group("", g.strLeaf(path))
 }
@@ -195,6 +200,42 @@ func H_C01b_call() {
 
 func H_C01b_chain() {
 	c01Run(vxParam("chainChain"), vxParam("chainList"), vxParam("kids"), 0)
+}
+
+// inline groups in depth: up to 3 members of every kind, as first or later member of each kind of scope,
+// followed or not by another attribute, given at the call site or through With()
+func H_C01b_inline() {
+	w := &c01Rec{}
+	l := New(NewJsonHandler(w, NewOptions(LevelDebug, false, false)))
+	g := &c01Gen{maxKids: vxParam("inlineKids")}
+	var path []string
+	scope := vxPick(3)
+	if scope == 1 {
+		l = l.WithGroup("G")
+		path = []string{"G"}
+	}
+	var attrs []any
+	inner := path
+	if scope == 2 {
+		inner = c01Path(path, "K")
+	}
+	if vxPick(2) == 1 {
+		attrs = append(attrs, g.strLeaf(inner))
+	}
+	attrs = append(attrs, slog.Group("", g.kids(inner)...))
+	if vxPick(2) == 1 {
+		attrs = append(attrs, g.strLeaf(inner))
+		vxReach("inline group followed by an attribute")
+	}
+	if scope == 2 {
+		attrs = []any{slog.Group("K", attrs...)}
+	}
+	if vxPick(2) == 1 {
+		l = l.With(attrs...)
+		attrs = nil
+	}
+	l.Log(context.Background(), LevelInfo, "m", attrs...)
+	c01CheckLine(w, 1, "m", false, g.exp)
 }
 
 // levels, source on, symbolic message
